@@ -115,3 +115,167 @@ def array_struct_literal(prog):
 
 
 ALL["array_struct_literal"] = array_struct_literal
+
+
+def _vars_in(e):
+    for x in walk_exprs(e):
+        if x and x[0] == "var":
+            yield x[1]
+
+
+def out_of_scope_var(prog):
+    """Some variable reference is not lexically visible where it stands (another function's local/parameter,
+    a block-local used after its block, use before declaration)."""
+    glob = {n for (n, _t, _e) in prog["globals"]}
+    fnames = {f["name"] for f in prog["funcs"]}
+
+    def exprs_of(s):
+        k = s[0]
+        if k == "let":
+            return [s[3]]
+        if k == "set":
+            return [("var", s[1]), s[2]]
+        if k in ("if", "while"):
+            return [s[1]]
+        if k == "for":
+            return [s[2], s[3]]
+        if k in ("println", "print", "assert", "expr"):
+            return [s[1]]
+        if k == "return":
+            return [s[1]] if s[1] is not None else []
+        if k == "match":
+            return [s[1]]
+        return []
+
+    def block(body, vis):
+        vis = set(vis)
+        for s in body:
+            for e in exprs_of(s):
+                for n in _vars_in(e):
+                    if n not in vis and n not in glob and n not in fnames:
+                        return True
+            k = s[0]
+            if k == "let":
+                vis.add(s[1])
+            elif k == "if":
+                if block(s[2], vis) or (s[3] and block(s[3], vis)):
+                    return True
+            elif k == "while":
+                if block(s[2], vis):
+                    return True
+            elif k == "for":
+                if block(s[4], vis | {s[1]}):
+                    return True
+            elif k == "match":
+                for (_v, b, b2) in s[3]:
+                    if block(b2, vis | {b}):
+                        return True
+        return False
+
+    for f in prog["funcs"]:
+        if block(f["body"], {p for p, _ in f["params"]}):
+            return True
+    return False
+
+
+ALL["out_of_scope_var"] = out_of_scope_var
+
+
+def string_ordering_compare(prog):
+    def is_str(e):
+        return isinstance(e, tuple) and e and (e[0] == "str" or (e[0] == "bin" and e[1] == "+" and is_str(e[2])) or
+                                               (e[0] == "bi" and e[1] in ("str_concat", "int_to_string", "str_substring")))
+    return any(e and e[0] == "bin" and e[1] in ("<", "<=", ">", ">=") and (is_str(e[2]) or is_str(e[3])) for e in prog_exprs(prog))
+
+
+def fn_let_from_non_function(prog):
+    for s, _ in prog_stmts(prog):
+        if s[0] == "let" and isinstance(s[2], tuple) and s[2][0] == "fn" and s[3][0] not in ("fnref", "var", "call", "callv"):
+            return True
+    return False
+
+
+ALL["string_ordering_compare"] = string_ordering_compare
+ALL["fn_let_from_non_function"] = fn_let_from_non_function
+
+
+_BI_PARAMS = {"str_length": ["string"], "str_concat": ["string", "string"], "str_contains": ["string", "string"],
+              "str_equals": ["string", "string"], "str_substring": ["string", "int", "int"], "char_at": ["string", "int"],
+              "int_to_string": ["int"], "abs": ["num"], "min": ["num", "num"], "max": ["num", "num"],
+              "array_length": ["array"], "at": ["array", "int"], "array_push": ["array", None], "array_set": ["array", "int", None],
+              "array_pop": ["array"], "array_slice": ["array", "int", "int"]}
+_LIT_KIND = {"int": "int", "str": "string", "bool": "bool", "float": "float"}
+
+
+def _name_types(prog):
+    m = {}
+    for (n, t, _e) in prog["globals"]:
+        m[n] = t
+    for f in prog["funcs"]:
+        for p_, t in f["params"]:
+            m.setdefault(p_, t)
+        for s_, _ in walk_stmts(f["body"]):
+            if s_[0] == "let":
+                m.setdefault(s_[1], s_[2])
+            elif s_[0] == "for":
+                m.setdefault(s_[1], "int")
+    return m
+
+
+def _static_kind(e, names, funcs):
+    """int / string / bool / float / array / other / None (unknown)"""
+    if not isinstance(e, tuple) or not e:
+        return None
+    k = e[0]
+    if k in _LIT_KIND:
+        return _LIT_KIND[k]
+    if k == "var":
+        t = names.get(e[1])
+        if t is None:
+            return None
+        if isinstance(t, str):
+            return t
+        return "array" if t[0] == "array" else "other"
+    if k == "arr":
+        return "array"
+    if k in ("mk", "umk", "tup", "enum", "fnref"):
+        return "other"
+    if k == "call":
+        t = funcs.get(e[1])
+        if t is None:
+            return None
+        return t if isinstance(t, str) else ("array" if t[0] == "array" else "other")
+    if k == "bin":
+        if e[1] in ("==", "!=", "<", "<=", ">", ">=", "and", "or"):
+            return "bool"
+        return _static_kind(e[2], names, funcs)
+    if k == "un":
+        return "bool" if e[1] == "not" else _static_kind(e[2], names, funcs)
+    if k == "bi":
+        return {"str_length": "int", "array_length": "int", "char_at": "int", "abs": None, "int_to_string": "string",
+                "str_concat": "string", "str_substring": "string", "str_contains": "bool", "str_equals": "bool"}.get(e[1])
+    return None
+
+
+def builtin_arg_type_mismatch(prog):
+    """A builtin is called with an argument whose (statically evident) type is wrong: builtin argument types are
+    not enforced by the type checker."""
+    names = _name_types(prog)
+    funcs = {f["name"]: f["ret"] for f in prog["funcs"]}
+    for e in prog_exprs(prog):
+        if e and e[0] == "bi" and e[1] in _BI_PARAMS:
+            for want, a in zip(_BI_PARAMS[e[1]], e[2]):
+                if want is None:
+                    continue
+                k = _static_kind(a, names, funcs)
+                if k is None:
+                    continue
+                if want == "num":
+                    if k not in ("int", "float"):
+                        return True
+                elif want != k:
+                    return True
+    return False
+
+
+ALL["builtin_arg_type_mismatch"] = builtin_arg_type_mismatch
